@@ -33,6 +33,17 @@ def SortedFrom : Nat → List Edit → Prop
 def TargetsAt (orig : Str) (es : List Edit) : Prop :=
   ∀ e ∈ es, (orig.drop e.idx).take e.target.length = e.target
 
+/-- One edit applied on its own to the current text: the indexed application of the engine, seen on
+the extracted text. -/
+def replaceOne (s : Str) (e : Edit) : Str :=
+  s.take e.idx ++ e.new ++ s.drop (e.idx + e.target.length)
+
+/-- The script applied one edit at a time, last edit first ("indexed first, reverse order"). -/
+def applyDesc (s : Str) (es : List Edit) : Str := es.foldr (fun e acc => replaceOne acc e) s
+
+/-- Every edit addresses a range of the text. -/
+def InRange (n : Nat) (es : List Edit) : Prop := ∀ e ∈ es, e.idx + e.target.length ≤ n
+
 /-- Boolean versions for the driver. -/
 def sortedFromB : Nat → List Edit → Bool
   | _, [] => true
